@@ -937,6 +937,14 @@ class Unit:
                 out.append(txt)
         return '\n'.join(out) + '\n'
 
+    def render_types(self):
+        out = ['#include <stdint.h>\n#include <stddef.h>\n#include <sys/types.h>']
+        for name in self.struct_state:
+            out.append('struct %s;' % self.struct_cname(name))
+        for name in self.struct_order:
+            out.append(self.struct_text[name])
+        return '\n'.join(out) + '\n'
+
     def render_layout_check(self, driver_include):
         """C++ TU: static_asserts that the C struct layout assumed by cxx2c equals clang's"""
         out = ['#include "%s"' % driver_include, '#include <cstddef>',
